@@ -35,6 +35,10 @@ type Engine[P any] struct {
 	Name     string
 	// Gen draws a complete plan. Nothing is drawn later.
 	Gen func(r *Rng) *P
+	// GenFirst, when set, draws the plan of run 0 of a worker process: a shape
+	// that makes whatever the library initialises on first use be initialised
+	// by concurrent tasks.
+	GenFirst func(r *Rng) *P
 	// Valid keeps shrinking inside the property's domain.
 	Valid func(*P) bool
 	// Exec interprets the plan. It is called inside a fresh synctest bubble.
@@ -88,6 +92,11 @@ type Replay struct {
 	// Prefix replay: the violation only shows after the runs 0..Run of this
 	// worker seed were executed in one process (the library keeps state
 	// across runs). Replaying means re-executing that whole prefix.
+	// FreshOnly: the violation did not show again inside the worker that found
+	// it (it depends on something that happens once per process, such as lazy
+	// initialisation); the plan is as generated and is minimised by the driver
+	// with one fresh process per candidate.
+	FreshOnly bool     `json:"fresh_process_only,omitempty"`
 	Prefix    bool     `json:"prefix_replay,omitempty"`
 	Tier      string   `json:"tier,omitempty"`
 	Race      bool     `json:"race_binary,omitempty"`
@@ -347,7 +356,7 @@ func RunWorker[P any](t *testing.T, cfg Config, eng *Engine[P]) {
 		wseed := DeriveSeed(rp.VerifSeed, propNum(eng.Property), uint64(rp.Worker))
 		want := rp.Violation.Sig()
 		for i := 0; i <= rp.Run; i++ {
-			plan := eng.Gen(NewRng(DeriveSeed(wseed, uint64(i))))
+			plan := genRun(eng, DeriveSeed(wseed, uint64(i)), i)
 			res := exec(plan, i == rp.Run)
 			if i%64 == 5 {
 				exec(plan, false) // the search re-executed these plans too
@@ -368,7 +377,7 @@ func RunWorker[P any](t *testing.T, cfg Config, eng *Engine[P]) {
 		// write the plan of run VERIF_RUNIDX as a replay file (debugging aid)
 		wseed := DeriveSeed(cfg.Seed, propNum(eng.Property), uint64(cfg.Worker))
 		i := envInt("VERIF_RUNIDX", 0)
-		plan := eng.Gen(NewRng(DeriveSeed(wseed, uint64(i))))
+		plan := genRun(eng, DeriveSeed(wseed, uint64(i)), i)
 		pb, _ := json.Marshal(plan)
 		rp := Replay{Property: eng.Property, Engine: eng.Name, VerifSeed: cfg.Seed, Worker: cfg.Worker, Run: i, Plan: pb}
 		b, _ := json.MarshalIndent(rp, "", " ")
@@ -462,7 +471,7 @@ func RunWorker[P any](t *testing.T, cfg Config, eng *Engine[P]) {
 		default:
 		}
 		pseed := DeriveSeed(wseed, uint64(i))
-		plan := eng.Gen(NewRng(pseed))
+		plan := genRun(eng, pseed, i)
 		res := exec(plan, false)
 		st.Runs++
 		if hashLog != nil {
@@ -581,11 +590,18 @@ func RunWorker[P any](t *testing.T, cfg Config, eng *Engine[P]) {
 		if valid == nil {
 			valid = func(*P) bool { return true }
 		}
-		min, tried := Shrink(plan, valid, still, cfg.ShrinkBudget)
+		min, tried := plan, 0
 		var final *Result
 		var fv *Violation
 		fails, execs := 0, 0
-		for k := 0; k < 40 && (fv == nil || execs < 10); k++ {
+		if repro == 0 {
+			// not reproducible inside this process at all
+			final, fv = res, hit
+			fails, execs = 1, 1
+		} else {
+			min, tried = Shrink(plan, valid, still, cfg.ShrinkBudget)
+		}
+		for k := 0; repro > 0 && k < 40 && (fv == nil || execs < 10); k++ {
 			rr, v := failsOnce(min, true)
 			execs++
 			if v != nil {
@@ -604,6 +620,10 @@ func RunWorker[P any](t *testing.T, cfg Config, eng *Engine[P]) {
 		pb, _ := json.Marshal(min)
 		rp := Replay{Property: eng.Property, Engine: eng.Name, VerifSeed: cfg.Seed, Worker: cfg.Worker, Run: i, PlanSeed: pseed,
 			Plan: pb, Violation: *fv, TraceHash: fmt.Sprintf("%016x", final.TraceHash), Shrunk: tried, Trace: final.Trace}
+		if repro == 0 {
+			rp.FreshOnly = true
+			rp.TraceHash = ""
+		}
 		if fails < execs {
 			rp.Attempts = 60 * execs / fails
 			if rp.Attempts > 2000 {
@@ -637,6 +657,13 @@ func RunWorker[P any](t *testing.T, cfg Config, eng *Engine[P]) {
 		os.Exit(ExitViolation)
 	}
 	write()
+}
+
+func genRun[P any](eng *Engine[P], pseed uint64, i int) *P {
+	if i == 0 && eng.GenFirst != nil {
+		return eng.GenFirst(NewRng(pseed))
+	}
+	return eng.Gen(NewRng(pseed))
 }
 
 func propNum(p string) uint64 {
